@@ -109,7 +109,8 @@ def shard(mon, tier, rng, shard_no, nshards):
     grid = np.arange(0.5, 180, 0.5)
     mine = grid[shard_no::nshards]
     extra = np.round(rng.uniform(0.05, 179.95, size=4 if tier == "quick" else 400), 4)
-    for th in list(mine) + list(extra):
+    tiny = [0.005, 0.02, 179.995] if shard_no == 0 else []  # the ends of the open interval (0, 180)
+    for th in list(mine) + list(extra) + tiny:
         th = float(th)
         order = gen.make_order("theta", theta=th)
         check_cone(mon, f"theta{th:g}", order, rng, "theta-" + ("acute" if th < 90 else "obtuse"))
